@@ -97,6 +97,7 @@ type lexer struct {
 	prevCol   int
 	pos       ast.Pos
 	last      atomic.Value
+	seen      bool
 }
 
 func newLexer(env *interp.ExecEnv, name string, r io.RuneScanner) *lexer {
@@ -895,6 +896,14 @@ Scan:
 }
 
 func (l *lexer) scanRawToken() int {
+	tok := l.scanRaw()
+	if tok > 0 {
+		l.seen = true
+	}
+	return tok
+}
+
+func (l *lexer) scanRaw() int {
 	for {
 		r, err := l.read()
 		if err != nil {
@@ -983,7 +992,12 @@ func (l *lexer) scanRawToken() int {
 			if l.lit(); len(l.word) != 0 {
 				return WORD
 			}
-			if !l.linebreak() {
+			if !l.seen {
+				// comment lines before a command
+				if !l.linebreak() {
+					return -1
+				}
+			} else if !l.skipComment() {
 				return -1
 			}
 		default:
@@ -1549,6 +1563,27 @@ func (l *lexer) linebreak() bool {
 			}
 			l.b.WriteRune(r)
 		}
+	}
+}
+
+// skipComment scans a comment up to, but not including, the <newline>
+// which terminates it.
+func (l *lexer) skipComment() bool {
+	l.read() // '#'
+	l.mark(-1)
+	for {
+		r, err := l.read()
+		if err != nil {
+			l.comment()
+			return false
+		}
+		if r == '\n' {
+			l.unread()
+			l.comment()
+			l.mark(0)
+			return true
+		}
+		l.b.WriteRune(r)
 	}
 }
 
